@@ -97,6 +97,69 @@ func enumConstCheck(cs *gen.Case, f *model.File) (problems []string, checked int
 	return problems, checked, "ok"
 }
 
+// addMultiTypeEnums: enums that state a list of two or more types, every value
+// being of one of them ("integer" with and without "number" in the list).
+func addMultiTypeEnums(t *rapid.T, c *core.Ctx, f *model.File) {
+	shapes := []struct {
+		types []string
+		vals  []jv.V
+	}{
+		{[]string{"integer", "string"}, []jv.V{jv.IntV(0), jv.IntV(3), jv.IntV(10), jv.StrV("unlimited")}},
+		{[]string{"string", "integer"}, []jv.V{jv.StrV("auto"), jv.IntV(1), jv.IntV(-2)}},
+		{[]string{"number", "string"}, []jv.V{jv.NumLit("1.5"), jv.IntV(2), jv.StrV("max")}},
+		{[]string{"integer", "boolean"}, []jv.V{jv.IntV(7), jv.BoolV(true), jv.BoolV(false)}},
+		{[]string{"string", "null"}, []jv.V{jv.StrV("a"), jv.StrV("b"), jv.NullV()}},
+		{[]string{"integer", "string", "boolean"}, []jv.V{jv.IntV(5), jv.StrV("five"), jv.BoolV(true)}},
+	}
+	n := rapid.IntRange(1, 2).Draw(t, "nmultitype")
+	for i := 0; i < n; i++ {
+		sh := rapid.SampledFrom(shapes).Draw(t, "multitypeshape")
+		e := &model.Node{Kind: model.KEnum, EnumTypes: sh.types, EnumVals: append([]jv.V{}, sh.vals...)}
+		name := fmt.Sprintf("zmulti%d", i)
+		switch rapid.IntRange(0, 2).Draw(t, "multitypeplace") {
+		case 0:
+			f.Root.Props = append(f.Root.Props, model.Prop{Name: name, Node: e})
+		case 1:
+			f.Root.Props = append(f.Root.Props, model.Prop{Name: name, Node: &model.Node{Kind: model.KArray, Items: e}})
+		default:
+			dn := fmt.Sprintf("ZMulti%d", i)
+			f.Defs = append(f.Defs, model.Def{Name: dn, Node: e})
+			f.Root.Props = append(f.Root.Props, model.Prop{Name: name, Node: &model.Node{Kind: model.KRef, Ref: "#/$defs/" + dn, Target: e}})
+		}
+		f.Root.Required = append(f.Root.Required, name)
+		c.Count("shape.multi_type_enum." + strings.Join(sh.types, "+"))
+	}
+}
+
+// addNarrowedRefEnums: an enum keyword next to a $ref to a wider enum (the
+// tool lets the enum decide), written directly under a property, as the items
+// of an inline array and as the items of a named array definition.
+func addNarrowedRefEnums(t *rapid.T, c *core.Ctx, f *model.File) {
+	wide := &model.Node{Kind: model.KEnum, EnumType: "string", EnumVals: []jv.V{jv.StrV("red"), jv.StrV("green"), jv.StrV("blue"), jv.StrV("amber")}}
+	f.Defs = append(f.Defs, model.Def{Name: "ZColor", Node: wide})
+	narrow := func() *model.Node {
+		return &model.Node{Kind: model.KEnum, NoType: true, EnumVals: []jv.V{jv.StrV("red"), jv.StrV("amber")}, Noise: []jv.KV{{K: "$ref", V: jv.StrV("#/$defs/ZColor")}}}
+	}
+	place := rapid.IntRange(0, 2).Draw(t, "narrowplace")
+	switch place {
+	case 0:
+		f.Root.Props = append(f.Root.Props, model.Prop{Name: "znarrow", Node: narrow()})
+	case 1:
+		f.Root.Props = append(f.Root.Props, model.Prop{Name: "znarrow", Node: &model.Node{Kind: model.KArray, Items: narrow()}})
+	default:
+		if c.Avoid("refs.array_definition") {
+			// the narrowed element type validates itself even though the named array does not
+			c.Count("shape.narrowed_ref_enum.named_array_despite_open_finding")
+		}
+		list := &model.Node{Kind: model.KArray, Items: narrow()}
+		f.Defs = append(f.Defs, model.Def{Name: "ZNarrowList", Node: list})
+		f.Root.Props = append(f.Root.Props, model.Prop{Name: "znarrow", Node: &model.Node{Kind: model.KRef, Ref: "#/$defs/ZNarrowList", Target: list}})
+	}
+	f.Root.Props = append(f.Root.Props, model.Prop{Name: "zwide", Node: &model.Node{Kind: model.KRef, Ref: "#/$defs/ZColor", Target: wide}})
+	f.Root.Required = append(f.Root.Required, "znarrow")
+	c.Count(fmt.Sprintf("shape.narrowed_ref_enum.%d", place))
+}
+
 func TestC08(t *testing.T) {
 	c := core.New(t, "C08")
 	defer c.Finish()
@@ -133,6 +196,28 @@ func TestC08(t *testing.T) {
 		if rapid.IntRange(0, 3).Draw(rt, "collidingdefs") == 0 {
 			addCollidingDefs(rt, c, f, "enum")
 		}
+		if rapid.IntRange(0, 2).Draw(rt, "multitypeenum") == 0 {
+			addMultiTypeEnums(rt, c, f)
+		}
+		if rapid.IntRange(0, 2).Draw(rt, "narrowedref") == 0 {
+			addNarrowedRefEnums(rt, c, f)
+		}
+		// every enum is also probed with the values the other enums of the schema list
+		oc := *o
+		collect := func(x *model.Node) {
+			if x.Kind == model.KEnum {
+				for _, v := range x.EnumVals {
+					if v.K != jv.Null && len(oc.OtherEnumValues) < 40 {
+						oc.OtherEnumValues = append(oc.OtherEnumValues, v)
+					}
+				}
+			}
+		}
+		model.Walk(f.Root, collect)
+		for _, d := range f.Defs {
+			model.Walk(d.Node, collect)
+		}
+		o := &oc
 		cs := caseOf(baseConfig(), []string{f.RelPath}, f)
 		countShapes(c, f, cs.Config)
 		probs, n, st := enumConstCheck(cs, f)
